@@ -31,7 +31,7 @@ BUDGET = {
 @st.composite
 def cases(draw):
     spec = draw(models.model_specs(names=draw(st.sampled_from(["free", "free", "ident"])), n_state=(1, 5), n_control=(0, 3), n_calib=(0, 2), depth=3,
-                                   allow_string_form=True, allow_alt_dt=True))
+                                   allow_string_form=True, allow_alt_dt=True, allow_wrap=True))
     pts = [draw(models.points(spec, dt=("pos", "neg"), extra_zero_dt=True)) for _ in range(6)]
     return {"model": spec, "points": pts}
 
@@ -98,6 +98,8 @@ def case(spec, ctx):
         ctx.event("cse_nested_temps")
     if m["string_form"]:
         ctx.event("string_form")
+    if m.get("proactive_simplify"):
+        ctx.event("proactive_simplify")
     if m["dt"] != "dt":
         ctx.event("alt_dt_name")
     if any("\\" in n or "{" in n for n in m["state"] + m["control"] + m["calib"]):
